@@ -40,6 +40,7 @@ TOut ==
   /\ Ev.im0 <= PhaseTol /\ Ev.negre0 <= PhaseTol          \* first coil real and non-negative
   /\ Ev.emin_neg = 0 /\ Ev.emax <= One + EigSlack         \* eigenvalues between 0 and 1
   /\ (T.synthetic = 1 => Ev.interior_err <= T.recover_tol)  \* magnitudes recover the true maps in the interior (bound per parameter family, DESIGN.md C17)
+  /\ (T.synthetic = 1 => Ev.misaligned = 0)                 \* ... and fit them better than the true maps displaced by one voxel along any axis
   /\ l' = l + 1 /\ UNCHANGED <<tid, iter>>
 TNext == TIter \/ TOut
 TraceSpec == TInit /\ [][TNext]_tvars
